@@ -1,6 +1,7 @@
 //! Deterministic simulation harness for rosu-pp. See /verif/DESIGN.md.
 pub mod builder;
 pub mod conc;
+pub mod edited;
 pub mod grad;
 pub mod hist;
 pub mod io;
